@@ -73,7 +73,9 @@ def small_dyadic(q):
     if isinstance(q, str):
         return True  # infinities in domains are fine
     d = q.denominator
-    return d & (d - 1) == 0 and d <= 1024 and abs(q) < 2 ** 20
+    # dyadic with at most 30 fractional bits and magnitude below 2^20 (or an integer below 2^21): sums and products
+    # of a few such numbers are exact in f64, so the float folding of the compiler agrees with the exact statement
+    return d & (d - 1) == 0 and d <= 2 ** 30 and abs(q) <= 2 ** 21
 
 # ---------------------------------------------------------------- encoding
 class Enc:
@@ -269,10 +271,12 @@ def analyse(prop, model, lin, timeout_ms=4000):
             unknown.append("a")
         r, m = ex_forall(src, z3.And(linf, lin_obj == src_obj))
         if r == "sat":
-            # distinguish "not attained" from "already infeasible extension" (the latter is C01's business)
+            # a source-feasible point none of whose extensions attains the source objective: either the objective
+            # is wrong there or the point has no extension at all (then C01 fails too) - both change what the
+            # compiled model can attain, so both are reported here, told apart by the kind
             r2, _ = ex_forall(src, linf)
-            if r2 != "sat":
-                return "(violation objective-not-attained %s)" % json.dumps({k: v for k, v in m.items() if k in used_src})
+            kind = "objective-not-attained" if r2 != "sat" else "objective-not-attained-point-cut-off"
+            return "(violation %s %s)" % (kind, json.dumps({k: v for k, v in m.items() if k in used_src}))
         if r == "unknown":
             unknown.append("b")
     return "(ok%s)" % (" unknown-" + "".join(unknown) if unknown else "")
